@@ -26,11 +26,12 @@ import rules_misc  # noqa
 prop("C12", ["T-CALL-EMIT", "T-CALL-RECORD", "T-CALL-WRITERS", "T-INUSE-CLOSURE"])
 prop("C11", ["T-OPTION-CONFINE", "T-ASMLINE-SIBLINGS", "T-CPP-SCAN-SIBLINGS", "T-OPT-PEEK", "T-LISTING-FORMAT"])
 prop("C05", ["T-HASH-ITER", "T-ORDER-FRESH", "T-NONDET-API", "M-HASH-SITES", "M-NONDET"])
-prop("C15", ["T-CMPXFORM", "T-FLAGS-DIRTY", "T-LABEL-KILL", "T-LB-EQUIV", "T-OPT-KILL", "T-OPT-BARRIER"])
+prop("C15", ["T-CMPXFORM", "T-FLAGS-DIRTY", "T-LABEL-KILL", "T-LB-EQUIV", "T-OPT-KILL", "T-OPT-BARRIER", "T-FLAGS-JOIN", "T-NZ-PRECOND"])
 import rules_flow  # noqa
 import rules_mir  # noqa
 import rules_term  # noqa
 import rules_r3  # noqa
-prop("C01", ["T-PREC", "T-BRANCH", "T-CMPXFORM", "T-STACK-PAIR", "T-FLAGS-DIRTY", "T-FLAGS-VALUE", "T-LABEL-KILL", "T-OPT-KILL", "T-OPT-BARRIER", "T-OPT-PROT", "T-OPT-PEEK", "T-LB-EQUIV", "T-INLINE-COPY", "T-CARRY-SCOPE", "T-DEFERRED-BRANCH"])
+import rules_nz  # noqa
+prop("C01", ["T-PREC", "T-BRANCH", "T-CMPXFORM", "T-STACK-PAIR", "T-FLAGS-DIRTY", "T-FLAGS-VALUE", "T-LABEL-KILL", "T-OPT-KILL", "T-OPT-BARRIER", "T-OPT-PROT", "T-OPT-PEEK", "T-LB-EQUIV", "T-INLINE-COPY", "T-CARRY-SCOPE", "T-DEFERRED-BRANCH", "T-FLAGS-JOIN", "T-NZ-PRECOND"])
 prop("C13", ["T-ASM-MODE", "T-LABEL-UNIQUE", "T-LABEL-DEF", "T-CONTINUE-FLAG", "T-LOOP-EXIT-SIBLINGS", "T-INLINE-LABELS", "T-HANDBUILT", "T-INUSE-CLOSURE", "T-CALL-RECORD"])
 prop("C17", ["T-ASM-PORT", "T-RMW-GUARD", "T-OPT-KILL"])
